@@ -332,3 +332,15 @@ Definition cls (c : acase) (l : list (N * (acase -> bool))) : list N :=
 Definition verdict30 (c : acase) : Util.verdict :=
   (agree c, in_domain c, holds c, cls c [K 3 known_D03; K 6 known_D06; K 24 known_D24; K 300 known_300]).
 Definition report_C30 := run_report verdict30.
+
+(* ------------------------------------------------------------------------------------------ *)
+(* cases whose "observation" is the mirror model's own output: used to state refutation witnesses of the known
+   findings and non-vacuity examples inside Coq (the harness replays the same shapes on the implementation) *)
+Definition self_a (imports : list bimp) (funcs : list N) (globals : list (N * gpay)) (mems : list (N * mty))
+                  (data : list dseg) (exports : list expo) (dcount : bool) (ops : list aop) (sites : list (sp * N)) : acase :=
+  let c0 := mkAC imports funcs globals mems data exports dcount ops sites [] false None in
+  let '(rets, p, e) := model_out c0 in
+  mkAC imports funcs globals mems data exports dcount ops sites rets p e.
+Definition holds_of (v : Util.verdict) : bool := let '(_, _, h, _) := v in h.
+Definition dom_of (v : Util.verdict) : bool := let '(_, d, _, _) := v in d.
+Definition known_of (v : Util.verdict) : list N := let '(_, _, _, k) := v in k.
